@@ -3,10 +3,14 @@
     lock, file data lock held by stream handles): two stream copies in one directory
     -- no deadlock with the fixed lock order, deadlock with the old one (regression
     variant); WriteFile(d/x) against Remove(d) -- TLC shows the lost write
-    (NoLostWrite violated): open finding D_RemoveVsCreate.
+    (NoLostWrite violated): open finding D_RemoveVsCreate; a stream copy into a NEW file
+    against ReadFile -- the reader never sees the empty node (NoEmptyRead), it does when
+    the node becomes visible before it is locked (regression variant, fixed defect).
 (R) both model schedules on the real code: the stream-copy pair under a watchdog,
     and Remove(d) parked at the remove.checked hook while WriteFile / MkdirAll
-    beneath d complete (deterministic witness of the finding).
+    beneath d complete (deterministic witness of the finding); Writer on a new file
+    (parked before it locks the node where the code still has such a point) against
+    ReadFile, and ReadFile against an open writer handle.
 (T) 2-6 goroutines with random mixes of write / stream write / read / mkdir / remove /
     recursive remove / list / copy / queries on shared paths, GOMAXPROCS 1/2/4/N;
     Trace_MemFSLin.tla decides linearizability with respect to FsTree (every call's
@@ -22,8 +26,8 @@ MANIFEST = dict(
     note='Open finding D_RemoveVsCreate (Remove tests emptiness without a lock; a creation beneath the directory that overlaps the Remove is lost). Unspecified corner: a creation may fail when another goroutine creates the same node concurrently. Usage assumption: a goroutine holding a stream handle calls nothing else on that file before closing it. The Go memory model below the mutex level is not modelled.')
 
 
-def mc(sc, v):
-    return 'SPECIFICATION Spec\nCONSTANTS\n  Scenario = "%s"\n  Variant = "%s"\nINVARIANT NoLostWrite\n' % (sc, v)
+def mc(sc, v, inv='NoLostWrite'):
+    return 'SPECIFICATION Spec\nCONSTANTS\n  Scenario = "%s"\n  Variant = "%s"\nINVARIANT %s\n' % (sc, v, inv)
 
 
 def run(ctx):
@@ -31,7 +35,11 @@ def run(ctx):
     ctx.tlc_must_pass('fs', 'MemFSConc', 'mc.cfg', workers=2, timeout=300, files={'mc.cfg': mc('sc_sc', 'current')}, name='two stream copies, fixed lock order')
     r1 = ctx.tlc('fs', 'MemFSConc', 'mc.cfg', workers=2, timeout=300, files={'mc.cfg': mc('sc_sc', 'prefix')}, name='two stream copies, old lock order (must deadlock)')
     r2 = ctx.tlc('fs', 'MemFSConc', 'mc.cfg', workers=2, timeout=300, files={'mc.cfg': mc('wf_rm', 'current')}, name='WriteFile vs Remove (documents D_RemoveVsCreate: NoLostWrite violated)')
-    for r in (r1, r2):
+    ctx.tlc_must_pass('fs', 'MemFSConc', 'mc.cfg', workers=2, timeout=300, files={'mc.cfg': mc('sc_rd', 'current', 'NoEmptyRead')}, name='stream copy into a new file vs ReadFile, new node locked at birth')
+    r3 = ctx.tlc('fs', 'MemFSConc', 'mc.cfg', workers=2, timeout=300, files={'mc.cfg': mc('sc_rd', 'unlockednew', 'NoEmptyRead')}, name='stream copy into a new file vs ReadFile, node visible before it is locked (must violate NoEmptyRead)')
+    if 'NoEmptyRead' not in r3['violated']:
+        raise vlib.Infra('spec self-test failed: a new node visible before it is locked is not read empty in the model')
+    for r in (r1, r2, r3):
         ctx.cov['states'] -= r['distinct']; ctx.cov['transitions'] -= r['generated']
     if not r1['deadlock']:
         raise vlib.Infra('spec self-test failed: the old lock order does not deadlock in the model')
